@@ -274,28 +274,40 @@ def _extra_attrs(n):
     return sorted(set(vars(n)) - set(n._fields) - set(n._attributes))
 
 
-def _rand_tree(r, depth):
+def _rand_tree(r, depth, pool=None):
+    # pool: finished subtrees that may be used again - ONE node object at two places of the tree (a user who builds an ast by hand
+    # can do that).  The code has no memo, so each occurrence is copied on its own; the model sees the unfolding (equal identities).
+    import ast
+    if pool and r.random() < 0.3:
+        return r.choice(pool)
+    n = _rand_tree1(r, depth, pool)
+    if pool is not None:
+        pool.append(n)
+    return n
+
+
+def _rand_tree1(r, depth, pool):
     import ast
     L = ast.Load()
     k = r.random()
     if depth <= 0 or k < 0.2:
         n = r.choice([lambda: ast.Name(id=r.choice("exyj"), ctx=L), lambda: ast.Constant(value=r.choice([1, 2.5, "s", True]))])()
     elif k < 0.45:
-        n = ast.Call(func=ast.Attribute(value=_rand_tree(r, depth - 1), attr=r.choice(["pt", "met", "info"]), ctx=L),
-                     args=[_rand_tree(r, depth - 1) for _ in range(r.randrange(0, 3))],
-                     keywords=[ast.keyword(arg="k", value=_rand_tree(r, depth - 2))] if r.random() < .2 else [])
+        n = ast.Call(func=ast.Attribute(value=_rand_tree(r, depth - 1, pool), attr=r.choice(["pt", "met", "info"]), ctx=L),
+                     args=[_rand_tree(r, depth - 1, pool) for _ in range(r.randrange(0, 3))],
+                     keywords=[ast.keyword(arg="k", value=_rand_tree(r, depth - 2, pool))] if r.random() < .2 else [])
     elif k < 0.6:
-        n = ast.BinOp(left=_rand_tree(r, depth - 1), op=r.choice([ast.Add(), ast.Mult()]), right=_rand_tree(r, depth - 1))
+        n = ast.BinOp(left=_rand_tree(r, depth - 1, pool), op=r.choice([ast.Add(), ast.Mult()]), right=_rand_tree(r, depth - 1, pool))
     elif k < 0.7:
         n = ast.Lambda(args=ast.arguments(posonlyargs=[], args=[ast.arg(arg=r.choice("exyj"))], kwonlyargs=[], kw_defaults=[], defaults=[]),
-                       body=_rand_tree(r, depth - 1))
+                       body=_rand_tree(r, depth - 1, pool))
     elif k < 0.8:
-        n = ast.Tuple(elts=[_rand_tree(r, depth - 1) for _ in range(r.randrange(0, 4))], ctx=L)
+        n = ast.Tuple(elts=[_rand_tree(r, depth - 1, pool) for _ in range(r.randrange(0, 4))], ctx=L)
     elif k < 0.9:
         n = ast.Call(func=ast.Name(id=r.choice(["Select", "Where", "MetaData", "EventDataset"]), ctx=L),
-                     args=[_rand_tree(r, depth - 1) for _ in range(r.randrange(0, 3))], keywords=[])
+                     args=[_rand_tree(r, depth - 1, pool) for _ in range(r.randrange(0, 3))], keywords=[])
     else:
-        n = ast.Subscript(value=_rand_tree(r, depth - 1), slice=_rand_tree(r, depth - 2), ctx=L)
+        n = ast.Subscript(value=_rand_tree(r, depth - 1, pool), slice=_rand_tree(r, depth - 2, pool), ctx=L)
     if r.random() < 0.22:
         for a in r.sample(COPY_ATTRS, r.choice([1, 1, 1, 2])):
             setattr(n, a, {"x": 1} if a == "_q_metadata" else (n if a == "_old_ast" else True))
@@ -313,10 +325,11 @@ def copytree_correspondence(ctx):
     n_cases = ctx.budget(60, 600)
     lines = ["From Coq Require Import String List.", "Import ListNotations.", "Local Open Scope string_scope.",
              "From FA.Model Require Import CopyTree.", ""]
-    kinds = {"new": 0, "kept": 0}
+    kinds = {"new": 0, "kept": 0, "shared": 0}
     done = 0
     for ci in range(n_cases):
-        t = _rand_tree(r, r.choice([2, 3, 3, 4]))
+        shared_case = ci % 2 == 1
+        t = _rand_tree(r, r.choice([2, 3, 3, 4]), [] if shared_case else None)
         if ci % 3 == 0:
             t = ast.Lambda(args=ast.arguments(posonlyargs=[], args=[ast.arg(arg="e")], kwonlyargs=[], kw_defaults=[], defaults=[]), body=t)
         order = []
@@ -328,8 +341,13 @@ def copytree_correspondence(ctx):
         pre(t)
         if len(order) > 60:
             continue
-        index = {id(n): i for i, n in enumerate(order)}
-        N = len(order)
+        index = {}
+        for n in order:
+            index.setdefault(id(n), len(index))
+        N = len(index)
+        if N < len(order):
+            kinds["shared"] += 1
+        newidx = {}
         before = ast.dump(t)
         res = _copy_of_tree(t)
         ctx.evaluations += 1
@@ -340,7 +358,10 @@ def copytree_correspondence(ctx):
             if id(n) in index:
                 got.append(index[id(n)])
                 kinds["kept"] += 1
+            elif id(n) in newidx:
+                got.append(newidx[id(n)])
             else:
+                newidx[id(n)] = cnt[0]
                 got.append(cnt[0])
                 cnt[0] += 1
                 kinds["new"] += 1
@@ -368,6 +389,7 @@ def copytree_correspondence(ctx):
     ctx.corr_cases += done
     ctx.count("copytree", "objects of the result that are new", kinds["new"])
     ctx.count("copytree", "objects of the result that are the caller's (kept)", kinds["kept"])
+    ctx.count("copytree", "input trees in which one node object occurs at two places", kinds["shared"])
     if rc != 0:
         ctx.corr_disagreements += 1
         ctx.fail("no-failing-input-found", "correspondence copy (Model/CopyTree.v, evaluated inside Coq) vs util_ast._copy_of_tree broke: "
